@@ -21,15 +21,15 @@ from . import key_driver as kd
 
 NOTOL = 99
 ALL_FLOATS = set(range(1, 15))
-ALL_OTHERS = {21, 22, 23, 24, 25, 26, 27}
+ALL_OTHERS = {21, 22, 23, 24, 25, 26, 27, 28, 29}
 ALL_SHAPES = set(range(1, 24))
 ALIAS_SHAPES = {22, 23}        # calls that contain equal containers: also made with ONE shared object in their place
 # per tolerance: floats that merge / tie at that tolerance, and a few non-floats (quick tier)
 QUICK_ALPHA = {
     None: ({2, 3}, {21, 23}),
     -1: ({9, 10, 11, 12}, {22, 27, 23}),
-    0: ({1, 2, 3, 13, 14}, {21, 23, 24}),
-    1: ({4, 5, 6, 7}, {21, 23, 25}),
+    0: ({1, 2, 3, 13, 14}, {21, 23, 24, 28}),      # 28: a one-shot iterator
+    1: ({4, 5, 6, 7}, {21, 23, 25, 29}),         # 29: a class object
     2: ({4, 5, 7, 8}, {21, 26}),
 }
 DEVIATIONS = {
@@ -118,6 +118,10 @@ def _build(n, memo=None):
         return None
     if t == 'range':
         return range(n['v'])
+    if t == 'iter':
+        return iter([1.5, 2.5, 0.125][:n['v']])
+    if t == 'cls':
+        return int
     if t == 'ipnet':
         import ipaddress
         return ipaddress.ip_network('10.0.0.0/%d' % n['v'])
@@ -169,6 +173,10 @@ def describe(x):
         return leaf('none', 0)
     if type(x).__name__ == 'IPv4Network':
         return leaf('ipnet', x.prefixlen) if str(x.network_address) == '10.0.0.0' else leaf('other', 5)
+    if type(x).__name__ == 'list_iterator':
+        return leaf('iter', x.__length_hint__())     # (what is left in it; looking does not consume it)
+    if x is int:
+        return leaf('cls', 1)
     if type(x) is range:
         return leaf('range', len(x)) if x == range(len(x)) else leaf('other', 4)
     if type(x) is NT:
@@ -371,6 +379,7 @@ def main(pid, tier):
     mcs = []
     full = dict(FloatIds=ALL_FLOATS, OtherIds=ALL_OTHERS if thorough else {21, 23, 24, 25, 26}, ShapeIds=ALL_SHAPES,
                 TolIds={tol_id(t) for t in tols} | ({13} if thorough else set()), Deviations=set())
+    full['OtherIds'] = set(full['OtherIds']) | {28, 29}
     from concurrent.futures import ThreadPoolExecutor
     shapes = sorted(ALL_SHAPES)
     with ThreadPoolExecutor(max_workers=4) as ex:
